@@ -2,10 +2,10 @@
 
 Service definitions are *data* (``vf/kit/c39_gen.py``): Protocol classes are rendered to Python source and executed,
 a real ``RpcServer(enable_describe=True)`` is built for each, and ``__describe__`` is called through the real client
-functions ``introspect`` (in-memory pipe transport, real ``RpcServer.serve``) and ``http_introspect`` (real WSGI app).
+functions ``introspect`` (in-memory pipe transport, real ``RpcServer.serve_one`` run inline) and ``http_introspect`` (real WSGI app).
 
-Space: every base definition (1- and 2-method services over 9 method templates, plus 3-method services and 3 more
-templates in the thorough tier) and EVERY single-point edit of it from the edit grammar (rename protocol / method /
+Space: every base definition (all 1-method and half (quick) / all (thorough) 2-method services over 9 method
+templates, plus 3-method services and 3 more templates in the thorough tier) and EVERY single-point edit of it from the edit grammar (rename protocol / method /
 param / header field, retype every param / return / header field to every other type of the alphabet, nullability
 flips, kind changes between unary / producer / exchange / raw-stream, header add / remove / class rename / field add /
 reorder, return None<->value, param add at every position / remove / reorder, method add / remove / declaration
@@ -31,6 +31,7 @@ Oracle (weakest reading):
 
 from __future__ import annotations
 
+import io
 import json
 import logging
 import os
@@ -42,14 +43,13 @@ from typing import Any
 
 from vf.core.runner import Ctx, HarnessError
 from vf.kit import c39_gen as G
-from vf.kit import mem
 
 PROPERTY = "C39"
 LEVEL = "exploration"
 ENGINE = "E1-SEQ"
 SHARDS = {"quick": 8, "thorough": 16}
 RULE = (
-    "base definitions = all 1- and 2-method services over 9 (quick) / 12 (thorough) method templates (+ selected 3-method "
+    "base definitions = all 1-method and half (quick) / all (thorough) 2-method services over 9 / 12 method templates (+ selected 3-method "
     "services in thorough) x every single-point edit of the edit grammar (types alphabet 7 quick / 12 thorough); one "
     "evaluation = one (base, edit) pair with a real RpcServer built for the edited definition, its hash compared with "
     "the base, introspected over mem + HTTP, and re-hashed in 2 fresh interpreters; non-trivial = edit kind actually "
@@ -189,9 +189,12 @@ def _read_response(stream: Any) -> Any:
 
 
 def raw_mem(ct: Any, method: str, version: bytes | None) -> Any:
-    ct.writer.write(_request_bytes(method, version))
-    ct.writer.flush()
-    return _read_response(ct.reader)
+    try:
+        ct.writer.write(_request_bytes(method, version))
+        ct.writer.flush()
+        return _read_response(ct.reader)
+    except Exception as e:  # noqa: BLE001 - a broken reply is an outcome to judge, not a harness failure
+        return ("broken", type(e).__name__)
 
 
 def raw_http(client: Any, method: str, version: bytes | None, stream: bool = False) -> Any:
@@ -201,6 +204,90 @@ def raw_http(client: Any, method: str, version: bytes | None, stream: bool = Fal
     except Exception as e:  # noqa: BLE001
         return ("http", resp.status_code, type(e).__name__)
     return r + (resp.status_code,)
+
+
+# ------------------------------------------------------------------------------ inline pipe transport
+
+
+class _Q(io.RawIOBase):
+    """Byte queue end: reads are exact or short-at-EOF (never block); ``before_read`` runs the peer inline."""
+
+    def __init__(self, buf: bytearray, before_read: Any = None) -> None:
+        super().__init__()
+        self.buf = buf
+        self.before_read = before_read
+
+    def readable(self) -> bool:
+        return True
+
+    def writable(self) -> bool:
+        return True
+
+    def read(self, n: int = -1) -> bytes:
+        if self.before_read is not None:
+            self.before_read()
+        if n is None or n < 0:
+            n = len(self.buf)
+        out = bytes(self.buf[:n])
+        del self.buf[:n]
+        return out
+
+    def readinto(self, b: Any) -> int:
+        mv = memoryview(b).cast("B")
+        data = self.read(len(mv))
+        mv[: len(data)] = data
+        return len(data)
+
+    def write(self, b: Any) -> int:
+        data = bytes(b)
+        self.buf += data
+        return len(data)
+
+
+class InlinePipe:
+    """Client-side RpcTransport over two byte queues; the real ``RpcServer.serve_one`` runs synchronously, once per
+    request, at the client's first read after it wrote (no thread, fully deterministic)."""
+
+    def __init__(self, server: Any) -> None:
+        self.server = server
+        self.c2s = bytearray()
+        self.s2c = bytearray()
+        self.armed = False
+        outer = self
+
+        class _Srv:
+            reader = _Q(self.c2s)
+            writer = _Q(self.s2c)
+
+            def close(self) -> None:
+                return None
+
+        self._srv = _Srv()
+        self._w = _Q(self.c2s)
+        self._r = _Q(self.s2c, before_read=self._pump)
+        w_write = self._w.write
+
+        def write(b: Any) -> int:
+            outer.armed = True
+            return w_write(b)
+
+        self._w.write = write  # type: ignore[method-assign]
+
+    def _pump(self) -> None:
+        if self.armed:
+            self.armed = False
+            self.server.serve_one(self._srv)
+
+    @property
+    def reader(self) -> Any:
+        return self._r
+
+    @property
+    def writer(self) -> Any:
+        return self._w
+
+    def close(self) -> None:
+        return None
 
 
 # ------------------------------------------------------------------------------ one definition
@@ -222,8 +309,7 @@ def describe_both(ctx: Ctx, b: Built, rep: Any, tag: str) -> None:
 
     d = b.d
     descs: dict[str, Any] = {}
-    ct, st = mem.make_mem_pair(False)
-    th = mem.ServerThread(b.server, st).start()
+    ct = InlinePipe(b.server)
     client = make_sync_client(
         b.server, token_key=b"k" * 32, enable_landing_page=False, enable_describe_page=False, enable_not_found_page=False
     )
@@ -259,7 +345,6 @@ def describe_both(ctx: Ctx, b: Built, rep: Any, tag: str) -> None:
                         ctx.fail(f"gate-inactive:{vlabel}", f"[{tr}] ordinary method under {vlabel} version answered {g!r}, gate not active ({tag})", rep)
     finally:
         ct.close()
-        th.th.join(10)
 
 
 def eval_base(ctx: Ctx, base: dict[str, Any], types: list[str], seen: list[tuple[dict[str, Any], str, str]]) -> None:
